@@ -199,7 +199,7 @@ func Run(r *ev.Run, replay string) {
 }
 
 var pools = map[string][]string{
-	"NPM":   {"1.0.0", "1.1.0", "2.0.0-beta", "2.0.0", "0.9.0-rc.1", "junk", "1.0.0+b", "3.0.0-alpha"},
+	"NPM":   {"1.0.0", "1.1.0", "2.0.0-beta", "2.0.0", "0.9.0-rc.1", "junk", "1.0.0+b", "3.0.0-alpha", "2.0.0-alpha", "2.0.0-rc.1"},
 	"Maven": {"1.0", "1.1", "2.0-beta", "2.0", "0.9-rc-1", "3", "2.0-SNAPSHOT"},
 	"PyPI":  {"1.0", "1.1", "2.0b1", "2.0", "0.9rc1", "1.0.post1", "3.dev1"},
 }
@@ -222,7 +222,11 @@ func generate(rng *rand.Rand) Case {
 		ver := pool[rng.Intn(len(pool))]
 		if rng.Intn(2) == 0 {
 			op := Op{Kind: "add", Name: name, Version: ver}
-			switch rng.Intn(7) {
+			kind := rng.Intn(7)
+			if sysName == "NPM" && strings.Contains(ver, "-") && rng.Intn(3) == 0 {
+				kind = 0 // "latest" on a prerelease: it keeps its place while the package has releases
+			}
+			switch kind {
 			case 0:
 				if sysName == "NPM" {
 					// A dist-tag names one version: take it from the previous holder first.
@@ -242,7 +246,7 @@ func generate(rng *rand.Rand) Case {
 			case 3:
 				if sysName == "NPM" {
 					// Other tags, some of which equal "latest" up to letter case only.
-					op.Tags = gen.Pick(rng, "next,beta", "next,beta", "Latest", "LATEST,next", "current,lts", "not-latest", "next,latest-2", "beta,latest-rc,x", "latest-2")
+					op.Tags = gen.Pick(rng, "next,beta", "next,beta", "Latest", "LATEST,next", "current,lts", "not-latest", "next,latest-2", "beta,latest-rc,x", "latest-2", "next,v1-latest", "xlatest", "pre-latest,next", "lts,notlatest", "latest.1,next")
 				}
 			}
 			nreq := rng.Intn(4)
@@ -287,6 +291,11 @@ func generate(rng *rand.Rand) Case {
 		}
 		if rng.Intn(2) == 0 {
 			q := gen.Pick(rng, "*", ">=1.0.0", "latest", "1.0.0", "<2", "[1.0,2.0)", "", ">=1.0", "next", "junk")
+			if sysName == "NPM" && rng.Intn(3) == 0 {
+				// Ranges that admit prereleases: the matches may then be
+				// prereleases only, while the package has releases elsewhere.
+				q = gen.Pick(rng, ">=2.0.0-alpha", "^2.0.0-alpha", ">=2.0.0-alpha <2.0.0", ">=0.9.0-rc.1 <1.0.0", ">2.0.0-alpha <=2.0.0", "v1-latest", "notlatest")
+			}
 			ops = append(ops, Op{Kind: "matching", Name: rn, Version: q})
 		}
 	}
